@@ -1601,12 +1601,26 @@ func c01AppendInLoopShares(c *Ctx, rule string, fns []*ssa.Function) {
 			if isInstr && L.Blocks[bi.Block()] {
 				// defined in the loop: the accumulator (a phi fed by the result) or a value of this iteration
 				if phi, isPhi := base.(*ssa.Phi); isPhi {
+					// fed by the result, directly or through the phis of joins inside the loop
 					fed := false
-					for _, e := range phi.Edges {
-						if e == ssa.Value(cl) {
-							fed = true
+					seenPhi := map[*ssa.Phi]bool{}
+					var feeds func(p *ssa.Phi, depth int) bool
+					feeds = func(p *ssa.Phi, depth int) bool {
+						if seenPhi[p] || depth > 6 {
+							return false
 						}
+						seenPhi[p] = true
+						for _, e := range p.Edges {
+							if e == ssa.Value(cl) {
+								return true
+							}
+							if q, isQ := e.(*ssa.Phi); isQ && feeds(q, depth+1) {
+								return true
+							}
+						}
+						return false
 					}
+					fed = feeds(phi, 0)
 					if fed || phi.Block() != L.Header {
 						return
 					}
